@@ -39,8 +39,11 @@ type Work struct {
 	Sleep     bool   `json:"sleep"`
 	Epilogue  bool   `json:"epilogue"`
 	FwdSpawn  int    `json:"fwd_spawn"`
-	MutateArg bool   `json:"mutate_arg"` // parent mutates the variable passed to go right after spawning
+	MutateArg bool   `json:"mutate_arg"`         // parent mutates the variable passed to go right after spawning
 	CtxMode   int    `json:"ctx_mode,omitempty"` // 0 simulated cancellable context, 1 context.Background()
+	Workers   int    `json:"workers,omitempty"`  // >1: the last channel is drained by a pool of this many goroutines (fan-out)
+	WorkForm  int    `json:"work_form,omitempty"`
+	ResBuf    int    `json:"res_buf,omitempty"` // buffer of the pool's result channel (0 = 2)
 }
 
 type Prop struct{}
@@ -78,6 +81,33 @@ func (Prop) Gen(seed int64, tier string) *harness.Case {
 	w.MutateArg = r.Intn(2) == 0
 	if r.Intn(4) == 0 {
 		w.CtxMode = 1
+	}
+	if r.Intn(3) == 0 {
+		w.Workers = 2 + r.Intn(3)
+		w.WorkForm = r.Intn(3)
+	}
+	if tier == "real" {
+		// the real-thread leg wants contention: many items, pools of receivers, no sleeps
+		for i := range w.Items {
+			w.Items[i] = 10 + r.Intn(70)
+		}
+		if r.Intn(2) == 0 {
+			w.Workers = 2 + r.Intn(3)
+			w.WorkForm = r.Intn(3)
+		}
+		w.Sleep = false
+		for i := range w.Bufs {
+			w.Bufs[i] = []int{0, 1, 2, 2, 4}[r.Intn(5)]
+		}
+		if w.Workers > 1 {
+			// receivers must find the buffer non-empty: several producers, workers never held back by the join
+			w.Bufs[len(w.Bufs)-1] = 2 + r.Intn(3)
+			tot := 0
+			for _, n := range w.Items {
+				tot += n
+			}
+			w.ResBuf = tot
+		}
 	}
 	wb, _ := json.Marshal(w)
 	density := []int{0, 5, 20, 50, 80}[r.Intn(5)]
@@ -148,6 +178,10 @@ func Render(w *Work) string {
 		}
 	}
 	np := len(w.Items)
+	for i := range w.Bufs {
+		fmt.Fprintf(&b, "cl%d = false\n", i)
+	}
+	b.WriteString("clres = false\n")
 	b.WriteString("dn = make(chan int64)\n")
 	sl := ""
 	if w.Sleep {
@@ -181,20 +215,37 @@ func Render(w *Work) string {
 			b.WriteString("pid = 77\n")
 		}
 	}
-	fmt.Fprintf(&b, "go func() {\nfor k = 0; k < %d; k++ { <-dn }\nclose(ch0)\n}()\n", np)
+	fmt.Fprintf(&b, "go func() {\nfor k = 0; k < %d; k++ { <-dn }\ncl0 = true\nclose(ch0)\n}()\n", np)
 	for s := 1; s < stages; s++ {
 		in, out := fmt.Sprintf("ch%d", s-1), fmt.Sprintf("ch%d", s)
 		v := fmt.Sprintf("v%d", s)
 		loop := consumerLoop(w.FwdForm[s-1], in, v, out+" <- "+fwdExpr(w.Elem, v))
 		if w.FwdSpawn == 0 {
-			b.WriteString("go func() {\n" + loop + "\nclose(" + out + ")\n}()\n")
+			fmt.Fprintf(&b, "go func() {\n%s\nexited(\"%s\", cl%d)\ncl%d = true\nclose(%s)\n}()\n", loop, in, s-1, s, out)
 		} else {
-			fmt.Fprintf(&b, "func fwd%d(a, b, c, d, e) {\n%s\nclose(%s)\n}\ngo fwd%d(1, 2, 3, 4, 5)\n", s, loop, out, s)
+			fmt.Fprintf(&b, "func fwd%d(a, b, c, d, e) {\n%s\nexited(\"%s\", cl%d)\ncl%d = true\nclose(%s)\n}\ngo fwd%d(1, 2, 3, 4, 5)\n", s, loop, in, s-1, s, out, s)
 		}
 	}
 	last := fmt.Sprintf("ch%d", stages-1)
+	if w.Workers > 1 {
+		// fan-out: a pool of consumers on one channel, results joined on `res`
+		rb := w.ResBuf
+		if rb == 0 {
+			rb = 2
+		}
+		fmt.Fprintf(&b, "res = make(chan %s, %d)\nwd = make(chan int64)\n", w.Elem, rb)
+		fmt.Fprintf(&b, "func worker(k) {\n%s\nexited(\"%s\", cl%d)\nwd <- k\n}\n", consumerLoop(w.WorkForm, last, "wv", "res <- wv"), last, stages-1)
+		fmt.Fprintf(&b, "for wk = 0; wk < %d; wk++ { go worker(wk) }\n", w.Workers)
+		fmt.Fprintf(&b, "go func() {\nfor k = 0; k < %d; k++ { <-wd }\nclres = true\nclose(res)\n}()\n", w.Workers)
+		last = "res"
+	}
 	b.WriteString("out = []\n")
 	b.WriteString(consumerLoop(w.ConsForm, last, "vm", "emit(vm)\nout += vm") + "\n")
+	if last == "res" {
+		b.WriteString("exited(\"res\", clres)\n")
+	} else {
+		fmt.Fprintf(&b, "exited(\"%s\", cl%d)\n", last, stages-1)
+	}
 	if w.Epilogue {
 		b.WriteString("probe(\"recv-closed\", <-" + last + ")\n")
 		b.WriteString("z = 5\nz = <-" + last + "\nprobe(\"recv-stmt\", z)\n")
@@ -302,6 +353,14 @@ func (Prop) Run(t *testing.T, c *harness.Case, verbose bool) *harness.Result {
 			mu.Unlock()
 		})
 		e.Define("sleep", func(ms int64) { simrt.Sleep(time.Duration(ms) * time.Millisecond) })
+		e.Define("exited", func(ch string, closed bool) {
+			simrt.Yield("probe")
+			if !closed {
+				mu.Lock()
+				probes["early-exit"] = ch
+				mu.Unlock()
+			}
+		})
 		sim.Spawn("main", func() {
 			if w.CtxMode == 1 {
 				mainVal, mainErr = vm.RunContext(context.Background(), e, &vm.Options{Debug: false}, stmt)
@@ -333,63 +392,156 @@ func (Prop) Run(t *testing.T, c *harness.Case, verbose bool) *harness.Result {
 		}
 		res.Log = append(res.Log, "delivered: "+order, fmt.Sprintf("main done=%v err=%v val=%v probes=%v", mainDone, mainErr, mainVal, probes))
 	}
-	fail := func(class, detail string) *harness.Result {
-		res.Violation = class
-		res.Detail = detail + "\n" + src
-		res.Signature = class
+	for _, v := range sim.Viol {
+		res.Violation, res.Detail, res.Signature = v.Class, v.Detail+"\n"+src, v.Class
 		return res
 	}
-	for _, v := range sim.Viol {
-		return fail(v.Class, v.Detail)
-	}
 	if res.Outcome != "done" {
-		return fail("pipeline-stuck", fmt.Sprintf("outcome %s after %d steps: the pipeline did not finish (delivered so far: %s)", res.Outcome, sim.Step, order))
+		res.Violation = "pipeline-stuck"
+		res.Detail = fmt.Sprintf("outcome %s after %d steps: the pipeline did not finish (delivered so far: %s)\n%s", res.Outcome, sim.Step, order, src)
+		res.Signature = res.Violation
+		return res
 	}
-	if mainErr != nil {
-		return fail("script-error", fmt.Sprintf("the pipeline script failed: %v (delivered: %s)", mainErr, order))
-	}
-	exp := expected(&w)
-	next := make([]int, len(exp))
-	for _, v := range got {
-		p := producerOf(&w, v)
-		if p < 1 || p > len(exp) {
-			return fail("phantom-item", fmt.Sprintf("consumer received %#v which no producer sent (delivered: %s)", v, order))
-		}
-		if next[p-1] >= len(exp[p-1]) {
-			return fail("duplicated-item", fmt.Sprintf("consumer received more items from producer %d than were sent: %#v (delivered: %s)", p, v, order))
-		}
-		want := exp[p-1][next[p-1]]
-		if v != want {
-			return fail("order-or-conversion", fmt.Sprintf("producer %d: item #%d is %#v, expected %#v (exact value and element type) (delivered: %s)", p, next[p-1]+1, v, want, order))
-		}
-		next[p-1]++
-	}
-	for p := range exp {
-		if next[p] != len(exp[p]) {
-			return fail("lost-item", fmt.Sprintf("producer %d sent %d items, consumer received %d (delivered: %s)", p+1, len(exp[p]), next[p], order))
-		}
-	}
-	// the collected list returned to the host equals what was emitted
-	if lst, ok := mainVal.([]interface{}); !ok || fmt.Sprint(lst) != order {
-		return fail("result-mismatch", fmt.Sprintf("script returned %#v, emitted %s", mainVal, order))
+	if class, detail := judge(&w, got, probes, mainVal, mainErr); class != "" {
+		res.Violation, res.Detail, res.Signature = class, detail+"\n"+src, class
+		return res
 	}
 	if w.Epilogue {
-		if v, ok := probes["recv-closed"]; !ok || v != nil {
-			return fail("closed-recv", fmt.Sprintf("receive expression on a closed, drained channel yielded %#v, expected nil", v))
-		}
-		pv, _ := probes["ok-form"].([]interface{})
-		if len(pv) != 2 || pv[0] != int64(7) || pv[1] != false {
-			return fail("ok-form", fmt.Sprintf("`y = 7; y, ok = <-closed` left [y, ok] = %#v, expected [7, false]", probes["ok-form"]))
-		}
-		if probes["send-closed"] != "error" {
-			return fail("send-closed", fmt.Sprintf("send on a closed channel: %v (expected an error caught by try)", probes["send-closed"]))
-		}
-		if probes["double-close"] != "error" {
-			return fail("double-close", fmt.Sprintf("closing a closed channel: %v (expected an error caught by try)", probes["double-close"]))
-		}
 		res.Counters["epilogue_checked"]++
 	}
 	return res
+}
+
+// judge is the delivery oracle, shared by the simulation and the real-thread leg.
+func judge(wp *Work, got []interface{}, probes map[string]interface{}, mainVal interface{}, mainErr error) (string, string) {
+	w := *wp
+	order := fmt.Sprint(got)
+	type failure struct{ class, detail string }
+	var f *failure
+	fail := func(class, detail string) *failure { return &failure{class, detail} }
+	f = func() *failure {
+		if ch, ok := probes["early-exit"]; ok {
+			return fail("range-ended-before-close", fmt.Sprintf("a consumer loop over channel %v ended although the channel had not been closed yet (delivered: %s)", ch, order))
+		}
+		if mainErr != nil {
+			return fail("script-error", fmt.Sprintf("the pipeline script failed: %v (delivered: %s)", mainErr, order))
+		}
+		exp := expected(&w)
+		if w.Workers > 1 {
+			// fan-out: order across workers is not defined; every item exactly once, exact type
+			want := map[interface{}]int{}
+			for _, seq := range exp {
+				for _, v := range seq {
+					want[v]++
+				}
+			}
+			for _, v := range got {
+				if want[v] == 0 {
+					if producerOf(&w, v) == 0 {
+						return fail("phantom-item", fmt.Sprintf("consumer received %#v which no producer sent (delivered: %s)", v, order))
+					}
+					return fail("duplicated-item", fmt.Sprintf("item %#v was delivered more than once, or with the wrong element type (delivered: %s)", v, order))
+				}
+				want[v]--
+			}
+			for v, n := range want {
+				if n != 0 {
+					return fail("lost-item", fmt.Sprintf("item %#v was sent but never delivered (delivered: %s)", v, order))
+				}
+			}
+			exp = nil
+		}
+		next := make([]int, len(exp))
+		for _, v := range got {
+			p := producerOf(&w, v)
+			if exp == nil {
+				break
+			}
+			if p < 1 || p > len(exp) {
+				return fail("phantom-item", fmt.Sprintf("consumer received %#v which no producer sent (delivered: %s)", v, order))
+			}
+			if next[p-1] >= len(exp[p-1]) {
+				return fail("duplicated-item", fmt.Sprintf("consumer received more items from producer %d than were sent: %#v (delivered: %s)", p, v, order))
+			}
+			want := exp[p-1][next[p-1]]
+			if v != want {
+				return fail("order-or-conversion", fmt.Sprintf("producer %d: item #%d is %#v, expected %#v (exact value and element type) (delivered: %s)", p, next[p-1]+1, v, want, order))
+			}
+			next[p-1]++
+		}
+		for p := range exp {
+			if next[p] != len(exp[p]) {
+				return fail("lost-item", fmt.Sprintf("producer %d sent %d items, consumer received %d (delivered: %s)", p+1, len(exp[p]), next[p], order))
+			}
+		}
+		// the collected list returned to the host equals what was emitted
+		if lst, ok := mainVal.([]interface{}); !ok || fmt.Sprint(lst) != order {
+			return fail("result-mismatch", fmt.Sprintf("script returned %#v, emitted %s", mainVal, order))
+		}
+		if w.Epilogue {
+			if v, ok := probes["recv-closed"]; !ok || v != nil {
+				return fail("closed-recv", fmt.Sprintf("receive expression on a closed, drained channel yielded %#v, expected nil", v))
+			}
+			pv, _ := probes["ok-form"].([]interface{})
+			if len(pv) != 2 || pv[0] != int64(7) || pv[1] != false {
+				return fail("ok-form", fmt.Sprintf("`y = 7; y, ok = <-closed` left [y, ok] = %#v, expected [7, false]", probes["ok-form"]))
+			}
+			if probes["send-closed"] != "error" {
+				return fail("send-closed", fmt.Sprintf("send on a closed channel: %v (expected an error caught by try)", probes["send-closed"]))
+			}
+			if probes["double-close"] != "error" {
+				return fail("double-close", fmt.Sprintf("closing a closed channel: %v (expected an error caught by try)", probes["double-close"]))
+			}
+
+		}
+		return nil
+	}()
+	if f != nil {
+		return f.class, f.detail
+	}
+	return "", ""
+}
+
+// RunReal executes the pipeline on real goroutines (no scheduler, no overlay)
+// and applies the same oracle: the auxiliary leg for "all goroutine schedules
+// the runtime produces across repeated runs with varying GOMAXPROCS".
+func RunReal(c *harness.Case) (string, string) {
+	var w Work
+	if json.Unmarshal(c.Workload, &w) != nil {
+		return "", ""
+	}
+	src := Render(&w)
+	stmt, err := parser.ParseSrc(src)
+	if err != nil {
+		return "", ""
+	}
+	var mu sync.Mutex
+	var got []interface{}
+	probes := map[string]interface{}{}
+	e := env.NewEnv()
+	e.Define("emit", func(v interface{}) { mu.Lock(); got = append(got, v); mu.Unlock() })
+	e.Define("probe", func(tag string, v interface{}) { mu.Lock(); probes[tag] = v; mu.Unlock() })
+	e.Define("sleep", func(ms int64) { time.Sleep(time.Duration(ms) * time.Microsecond) })
+	e.Define("exited", func(ch string, closed bool) {
+		if !closed {
+			mu.Lock()
+			probes["early-exit"] = ch
+			mu.Unlock()
+		}
+	})
+	ctx, cancel := context.WithTimeout(context.Background(), 20*time.Second)
+	defer cancel()
+	val, rerr := vm.RunContext(ctx, e, &vm.Options{Debug: false}, stmt)
+	if ctx.Err() != nil {
+		return "pipeline-stuck", "the pipeline did not finish within 20 s on real goroutines (delivered so far: " + fmt.Sprint(got) + ")\n" + src
+	}
+	mu.Lock()
+	defer mu.Unlock()
+	class, detail := judge(&w, got, probes, val, rerr)
+	if class != "" {
+		detail += "\n" + src
+	}
+	return class, detail
 }
 
 func (Prop) Shrink(c *harness.Case) []*harness.Case {
@@ -471,6 +623,16 @@ func (Prop) Shrink(c *harness.Case) []*harness.Case {
 	if w.CtxMode != 0 {
 		nw := cp()
 		nw.CtxMode = 0
+		emit(nw)
+	}
+	if w.Workers > 2 {
+		nw := cp()
+		nw.Workers--
+		emit(nw)
+	}
+	if w.Workers > 1 {
+		nw := cp()
+		nw.Workers = 0
 		emit(nw)
 	}
 	if w.ConsForm != 0 {
